@@ -100,7 +100,7 @@ impl Property for C08 {
 
     fn cases(&self, tier: Tier) -> u32 {
         match tier {
-            Tier::Quick => 4_000,
+            Tier::Quick => 12_000,
             Tier::Thorough => 80_000,
         }
     }
